@@ -69,19 +69,27 @@ def run(ctx):
         for s in it:
             lib.precedes(ctx, '5d iterate-after-open', mg, so, [s], 'the index walk runs on the opened source')
     if mg:
-        ins = [bi for bi, t in mg.calls() if call_matches(t, ['re:BTreeSet.*::insert$']) and bi in mg.normal_blocks()]
+        ins = [bi for bi, t in mg.calls() if call_matches(t, ['re:BTreeSet.*::insert$', 're:BTreeSet.*Extend<.*>>::extend$', 're:BTreeSet.*::extend$', 're:BTreeSet.*::append$']) and bi in mg.normal_blocks()]
         # the automatic selection: an insert that depends on a comparison of source and destination column options
         need = {'preimage', 'uniform', 'ref_counted', 'compression', 'btree_index', 'multitree'}
         ok = False
         det = 'no insert guarded by a comparison of column options'
         for s2 in ins:
             calls, fields, binops = lib.guard_influences(mg, s2)
+            # `set.extend(range.filter(|c| a[c] != b[c]))`: the predicate lives in a closure feeding the inserted iterator
+            for a in mg.term(s2)['a'][1:]:
+                if op_place(a) is not None:
+                    sl2 = backward_slice(mg, [op_place(a)])
+                    calls = set(calls) | sl2.calls
+                    fields = set(fields) | sl2.fields
+            level0 = set(calls)
+            calls = lib.shallow_calls(F, calls, owner=mg.path)
             if any(re.search(r'ColumnOptions as std::cmp::PartialEq>::(eq|ne)$', c) for c in calls) or any(c in ('std::cmp::PartialEq::ne', 'std::cmp::PartialEq::eq') and '.Options.columns' in fields for c in calls):
                 ok = True
                 continue
             # custom predicate: every data-affecting field must be read by it
             read = set()
-            for c in calls:
+            for c in level0:
                 cb = F.body(c)
                 if cb is not None:
                     for blk in cb.blocks:
@@ -97,7 +105,11 @@ def run(ctx):
                     det = 'the selection predicate ignores %s' % sorted(need - read)
         ctx.ob('2c selection-compares-all-data-affecting-options', 'K9-agreement', mg.path,
                'a column is re-populated automatically whenever source and destination options differ in anything that affects stored bytes (full ColumnOptions equality, or at least preimage/uniform/ref_counted/compression/btree_index/multitree)', ok, det)
-    cl = F.body('migration::migrate::{closure#1}')
+    # the per-entry callback of the index walk: the closure of migrate that builds Operation::Set
+    cl = None
+    for fb in lib.family(F, 'migration::migrate'):
+        if fb.path != 'migration::migrate' and any(s['k'] == 'assign' and s['r']['k'] == 'agg' and s['r']['ak'] == 'Adt:db::Operation::Set' for blk in fb.blocks for s in blk['s']):
+            cl = fb
     if cl is None:
         ctx.ob('3 closure-anchor', 'anchor', 'migration::migrate', 'the per-entry closure of migrate exists', False, '')
     else:
@@ -130,6 +142,11 @@ def run(ctx):
     ps = F.consts.get('table::key::PARTIAL_SIZE', {}).get('i')
     pk = F.body('table::key::partial_key')
     ii = ctx.body('column::HashColumn::iter_index_internal')
+    if ii:
+        # the index walk that feeds migration visits every slot of every chunk
+        nn = lib.empty_slot_skipped(ctx, '4w empty-slot-skipped-not-terminal', ii, 'the migration index walk skips an empty slot and goes on with the rest of the chunk (removals leave holes in front of live entries)')
+        lps = lib.for_loops_over(ii)
+        ctx.ob('4w0 index-walk-anchors', 'anchor', ii.path, 'the walk is a loop over chunks with a loop over the entries of each chunk', len(lps) >= 2 or nn >= 1, 'loops %d, empty tests %d' % (len(lps), nn))
     def range_from_consts(b):
         out = []
         for blk in b.blocks:
